@@ -1476,7 +1476,8 @@ where
                 fat_start + BlockCount(u32::from(bpb.num_fats()) * bpb.fat_size());
             // Safe to unwrap since this is a Fat32 Type
             let info_location = bpb.fs_info_block().unwrap();
-            if info_location.0 >= bpb.total_blocks() {
+            // The info sector lives in the reserved region, after the boot sector
+            if info_location.0 == 0 || info_location >= fat_start {
                 return Err(Error::FormatError("Bad FS info location"));
             }
             let mut volume = FatVolume {
